@@ -414,6 +414,10 @@ func Drop[T any](count int, list ...T) []T {
 func DropLast[T any](count int, list ...T) []T {
 	listLen := len(list)
 
+	if count <= 0 {
+		return list
+	}
+
 	if listLen == 0 || count >= listLen {
 		return make([]T, 0)
 	}
